@@ -528,11 +528,15 @@ func crashExplore(op M) any {
 	}
 	var violations, seq []any
 	points := 0
+	// a later, uninterrupted store of a shorter document with the same identifier: what it leaves
+	// must be exactly that document, whatever the crashed store left behind
+	follow := storeDoc(id, 10+5*(bodyNew%5)) // no nodes, metadata as long as the new document's
 	observe := func(what string, mustDie bool, exit string) {
-		points++
 		if mustDie && exit == "" {
-			violations = append(violations, fmt.Sprintf("crash point %s: the storing process was not stopped (harness)", what))
+			// the call this crash point waits for is not issued by this implementation: no such point
+			return
 		}
+		points++
 		fs := &storage.FileSystem{Options: storage.FileSystemOptions{Path: dir}}
 		d, err := fs.Retrieve(id, nil)
 		kind := ""
@@ -555,6 +559,13 @@ func crashExplore(op M) any {
 		}
 		if b, err := fs.Retrieve("bystander", nil); err != nil || !proto.Equal(b, by) {
 			violations = append(violations, fmt.Sprintf("crash at %s: the entry of another identifier is damaged", what))
+		}
+		if what != "completion" {
+			if err := fs.Store(follow, nil); err != nil {
+				violations = append(violations, fmt.Sprintf("crash at %s: a later store of the same identifier fails: %v", what, err))
+			} else if d2, err := fs.Retrieve(id, nil); err != nil || !proto.Equal(d2, follow) {
+				violations = append(violations, fmt.Sprintf("crash at %s: after a later complete store, retrieve returns %v (error %v) instead of the stored document", what, docView(d2, nil), err))
+			}
 		}
 	}
 	req := M{"op": "storeOnce", "dir": dir, "id": id, "body": float64(bodyNew), "nc": nc}
@@ -597,7 +608,11 @@ func crashGen(g *G, tier string) []M {
 	}
 	var ops []M
 	for i := 0; i < n; i++ {
-		op := M{"op": "crash", "id": g.Pick([]string{"doc-1", "urn:uuid:1", "a/b"}), "bodyNew": float64(3 + g.Int(30)), "nc": false}
+		bn := 11 + g.Int(28)
+		if bn%5 == 0 {
+			bn++ // the new document has nodes
+		}
+		op := M{"op": "crash", "id": g.Pick([]string{"doc-1", "urn:uuid:1", "a/b"}), "bodyNew": float64(bn), "nc": false}
 		switch i % 4 {
 		case 1:
 			op["bodyOld"] = float64(40 + g.Int(30))
